@@ -49,8 +49,14 @@ type Doc2 struct {
 	Proposers []*Proposer
 }
 
+// ZeroFR is the fee recipient id that stands for the all-zero address.
+const ZeroFR = 4095
+
 func FRHex(id int) string {
 	var a bellatrix.ExecutionAddress
+	if id == ZeroFR {
+		return fmt.Sprintf("%#x", a)
+	}
 	for i := range a {
 		a[i] = byte(id)
 	}
@@ -60,6 +66,9 @@ func FRHex(id int) string {
 
 func FRAddr(id int) bellatrix.ExecutionAddress {
 	var a bellatrix.ExecutionAddress
+	if id == ZeroFR {
+		return a
+	}
 	for i := range a {
 		a[i] = byte(id)
 	}
@@ -322,6 +331,9 @@ func GenOpts(r *rand.Rand, p int) Opts {
 	var o Opts
 	if r.Intn(100) < p {
 		v := 1 + r.Intn(60)
+		if r.Intn(30) == 0 {
+			v = ZeroFR // an explicitly configured zero address
+		}
 		o.FR = &v
 	}
 	if r.Intn(100) < p {
